@@ -4,79 +4,6 @@ package flyt
 
 // C13 — the shared store is linearizable and data-race free.
 
-// Layer 1: lock discipline. Every method runs with the store's map declared as guarded by its
-// mutex: the engine checks that every access to the map (and to the field holding it) happens
-// with the lock held (write lock for writes), and the harness checks that each operation is one
-// critical section.
-func VH_C13_discipline() {
-	vUnwind(12)
-	s := NewSharedStore()
-	if vNondet[bool]("pre") {
-		s.Set(vNondet[string]("prekey"), vNondet[int]("preval"))
-	}
-	vGuardedBy(&s.mu, &s.data)
-	k := vNondet[string]("k")
-	before := vSections(&s.mu)
-	want := 1
-	switch vChoice("method", 24) {
-	case 0:
-		s.Get(k)
-	case 1:
-		s.Set(k, vNondet[int]("v"))
-	case 2:
-		s.GetAll()
-	case 3:
-		s.Merge(map[string]any{k: 1, "other": 2}) // a two-key merge is ONE critical section
-		vCover("merge-two-keys")
-	case 4:
-		s.Merge(nil)
-		want = 0
-	case 5:
-		s.Has(k)
-	case 6:
-		s.Delete(k)
-	case 7:
-		s.Clear()
-	case 8:
-		s.Keys()
-	case 9:
-		s.Len()
-	case 10:
-		s.GetString(k)
-	case 11:
-		s.GetStringOr(k, "d")
-	case 12:
-		s.GetInt(k)
-	case 13:
-		s.GetIntOr(k, 1)
-	case 14:
-		s.GetFloat64(k)
-	case 15:
-		s.GetFloat64Or(k, 1)
-	case 16:
-		s.GetBool(k)
-	case 17:
-		s.GetBoolOr(k, true)
-	case 18:
-		s.GetSlice(k)
-	case 19:
-		s.GetSliceOr(k, nil)
-	case 20:
-		s.GetMap(k)
-	case 21:
-		s.GetMapOr(k, nil)
-	case 22:
-		var d int
-		s.Bind(k, &d)
-	default:
-		var d int
-		vPanics(func() { s.MustBind(k, &d) })
-	}
-	_, _ = before, want
-	vAssert(vLockFree(&s.mu), "lock-released-on-return")
-	vCover("method-ran")
-}
-
 // Layer 3: two goroutines, one operation each, every pair of operation kinds; the results must be
 // explained by one of the two sequential orders on a reference map.
 type c13Op struct {
